@@ -101,6 +101,11 @@ func cmdRun(args []string) int {
 	fs.Parse(args)
 
 	t0 := time.Now()
+	os.Setenv("PATH", "/opt/veriftools/go1.26.8/bin:"+os.Getenv("PATH"))
+	for _, kv := range []string{"GOFLAGS=-mod=mod", "GOPROXY=off", "GOSUMDB=off", "GOTOOLCHAIN=local"} {
+		p := strings.SplitN(kv, "=", 2)
+		os.Setenv(p[0], p[1])
+	}
 	prog, err := loadProgram(*repo, *pkgPath, *hdir)
 	if err != nil {
 		fmt.Fprintln(os.Stderr, "load:", err)
@@ -193,7 +198,7 @@ func loadProgram(repo, pkgPath, hdir string) (*loaded, error) {
 		Dir:        repo,
 		BuildFlags: []string{"-tags=verif"},
 		Overlay:    overlay,
-		Env:        append(os.Environ(), "GOFLAGS=-mod=mod", "GOPROXY=off", "GOSUMDB=off", "GOTOOLCHAIN=local"),
+		Env:        append(os.Environ(), "PATH=/opt/veriftools/go1.26.8/bin:"+os.Getenv("PATH"), "GOFLAGS=-mod=mod", "GOPROXY=off", "GOSUMDB=off", "GOTOOLCHAIN=local"),
 	}
 	pkgs, err := packages.Load(cfg, pkgPath)
 	if err != nil {
